@@ -56,8 +56,19 @@ def binary_forms():
 
 
 def access_forms(alg_names):
-    # coefficient access inside a product (a bare coefficient is not a multivector-valued function)
-    return [f'{{x}}.{n} * {{y}}' for n in alg_names] + [f'{{y}} * {{x}}.{n}' for n in alg_names[:2]]
+    # a coefficient of one argument combined with the other argument by every operator that takes a number on that side
+    n1, n3 = alg_names[1], alg_names[3]
+    return ([f'{{x}}.{n} * {{y}}' for n in alg_names] + [f'{{y}} * {{x}}.{n}' for n in alg_names[:2]]
+            + [f'{{x}}.{n1} + {{y}}', f'{{y}} + {{x}}.{n3}', f'{{x}}.{n3} - {{y}}', f'{{y}} - {{x}}.{n1}', f'{{y}} / {{x}}.{n1}', f'{{x}}.{n1} / {{y}}',
+               f'-{{x}}.{n1} * {{y}}', f'({{x}}.{n1} * {{x}}.{n3} + 1) * {{y}}', f'{{x}}.{n3} ** 2 * {{y}}', f'({{x}}.{n1} / {{y}}.{n1}) * {{y}}',
+               f'({{x}} * {{y}}).{n3} * {{x}} + {{y}}.{n1}'])
+
+
+def scalar_result_forms(alg_names):
+    # functions whose result is a coefficient expression: coefficient access, sums, products and division by a number are all on the
+    # supported list, and both registration modes return the scalar multivector holding the number the plain function returns
+    n1, n3 = alg_names[1], alg_names[3]
+    return [f'a.{n1}', f'a.{n1} / b.{n1}', f'a.{n1} + 2 * b.{n3}', f'(a * b).{n3} - a.{n1} * b.{n1}']
 
 
 def cases(tier, seed):
@@ -77,6 +88,8 @@ def cases(tier, seed):
             progs.append((u.format(x='a'), 1))
         for b in B + A:
             progs.append((b.format(x='a', y='b'), 2))
+        for f_ in scalar_result_forms(names):
+            progs.append((f_, 2 if 'b' in f_ else 1))
         progs.append(('a.norm()', 1)); progs.append(('a.normalized()', 1)); progs.append(('a.sqrt()', 1))
         # outside the supported list (a number on the LEFT of an operator other than * + -): the registered function may raise,
         # but must never return another value than the plain function
@@ -170,6 +183,17 @@ def cases(tier, seed):
         for _ in range(12 if tier == 'quick' else 80):
             srcs = rng.sample(pool, 4)
             out.append(dict(kind='multi', cfg=cfg, srcs=srcs, keys=[list(rng.choice(pats_)), list(rng.choice(pats_))]))
+    # nested registered functions called with the SAME blades stored in different orders, interleaved: the compiled caller refers
+    # to the inner function's generated code by name, so every storage order needs its own entry
+    for cfg in cfgs:
+        d = sum(cfg.values())
+        base = [tuple(k for k in range(2 ** d) if bin(k).count('1') == 1), tuple(range(2 ** d))[:4], (0, 2 ** d - 1, 1)]
+        for gsrc, fsrc in (('a * b', 'g(a, b) + a'), ('a ^ b', 'g(a, g(a, b)) - b'), ('~a', 'g(a) * g(b)'), ('a | b', '2 * g(b, a) + g(a, b)')):
+            for kp in base:
+                kp = list(kp)
+                orders = [kp, kp[::-1], kp[1:] + kp[:1]]
+                for inner, outer in (((False, False), (True, True), (False, True), (True, False)) if d == 2 else ((False, False),)):
+                    out.append(dict(kind='nested-order', cfg=cfg, g=gsrc, f=fsrc, orders=orders, inner_symbolic=inner, outer_symbolic=outer))
     return out
 
 
@@ -196,6 +220,45 @@ def _run_multi(desc, V):
         if rf is None:
             continue
         claims += eq_claims(f'second-call[{i}]', _as_coeffs(rf(a, b)), want, fkey='multi|register|call-after-other-functions-compiled')
+    claims.append(Eq('reached', 1, 1))
+    return claims
+
+
+def _run_nested_order(desc, V):
+    alg = make_alg(desc['cfg'])
+    plain = make_alg(desc['cfg'])
+    from kingdon.multivector import MultiVector
+    gargs = 2 if 'b' in desc['g'] else 1
+    g, _ = _compile(desc['g'], gargs, 'g')
+    rg = alg.register(g, symbolic=True) if desc['inner_symbolic'] else alg.register(g)
+    ns_p, ns_r = {'g': g}, {'g': rg}
+    exec(f"def nested_f(a, b):\n    return {desc['f']}\n", ns_p)
+    exec(f"def nested_f(a, b):\n    return {desc['f']}\n", ns_r)
+    fp = ns_p['nested_f']
+    rf = alg.register(ns_r['nested_f'], symbolic=True) if desc['outer_symbolic'] else alg.register(ns_r['nested_f'])
+    tag = f"inner={'symbolic' if desc['inner_symbolic'] else 'plain'},outer={'symbolic' if desc['outer_symbolic'] else 'plain'}"
+    ops = []
+    for j, ka in enumerate(desc['orders']):
+        a, b = mv(alg, V, f'a{j}', ka), mv(alg, V, f'b{j}', desc['orders'][(j + 1) % len(desc['orders'])])
+        ops.append((a, b))
+    claims = []
+    # schedule: inner function alone on every order, caller on every order, then everything again in reverse
+    steps = [('g', j) for j in range(len(ops))] + [('f', j) for j in range(len(ops))] + [('f', j) for j in reversed(range(len(ops)))] + [('g', 0)]
+    for n, (which, j) in enumerate(steps):
+        a, b = ops[j]
+        pa = MultiVector.fromkeysvalues(plain, tuple(a.keys()), list(a.values()))
+        pb = MultiVector.fromkeysvalues(plain, tuple(b.keys()), list(b.values()))
+        try:
+            want = _as_coeffs((g(pa, pb) if gargs == 2 else g(pa)) if which == 'g' else fp(pa, pb))
+        except Exception:  # noqa
+            continue
+        try:
+            got = _as_coeffs((rg(a, b) if gargs == 2 else rg(a)) if which == 'g' else rf(a, b))
+        except Exception as e:  # noqa
+            claims.append(Fail(f'nested-order[{n}]:raises', f'step {n} ({which} on storage order {j}, {tag}) raised {type(e).__name__}: {str(e)[:100]}',
+                               fkey='nested-order|raises'))
+            continue
+        claims += eq_claims(f'nested-order[{n}:{which}{j}]', got, want, fkey='nested-order|value')
     claims.append(Eq('reached', 1, 1))
     return claims
 
@@ -244,6 +307,8 @@ def _as_coeffs(x):
 def run_case(desc, V):
     if desc['kind'] == 'multi':
         return _run_multi(desc, V)
+    if desc['kind'] == 'nested-order':
+        return _run_nested_order(desc, V)
     src, nargs = desc['src'], desc['nargs']
     lenient = src.startswith('LENIENT:')
     if lenient:
